@@ -194,6 +194,14 @@ def F07a(f):
             and (f.get("class", "").endswith("->Object") or f.get("class", "").endswith("->Boolean")))
 
 
+def F07c(f):
+    """a string column of the Float / Integer family whose every value is in the recorded Float/DateTime overlap (F02a:
+    float literals pd.to_datetime also parses, '.5', '2020') is typed DateTime (or Date) when the DateTime relation
+    happens to be enumerated before Float at String"""
+    return (f.get("class", "").startswith("family:") and f.get("family") in ("Float", "Integer")
+            and (f.get("class", "").endswith("->DateTime") or f.get("class", "").endswith("->Date")) and _only_known_overlaps(f))
+
+
 def F09h(f):
     """a float-literal column that pd.to_datetime also accepts (recorded overlap F02a) can be routed through
     String -> DateTime -> Date, where series.dt.date raises ValueError ('year 0 is out of range') for '.5'-like values"""
